@@ -534,7 +534,8 @@ private:
             NodeListT*& nodeList,
             bool (Parser::*parseItem)(NodeT*& node, NodeListT*& nodeList));
     bool parseTypeName(TypeNameSyntax*& typeName);
-    bool parseParenthesizedTypeNameOrExpression(TypeReferenceSyntax*& tyRef);
+    bool parseParenthesizedTypeNameOrExpression(TypeReferenceSyntax*& tyRef,
+                                                bool parensDelimitOperand = false);
     void maybeAmbiguateTypeReference(TypeReferenceSyntax*& tyRef);
 };
 
